@@ -2,6 +2,7 @@ import XL.Model.Lex
 import XL.Proofs.Range
 import XL.Proofs.ParseRender
 import XL.Proofs.ParseMin
+import XL.Proofs.LexTree
 /-!
 # C01 — formulas are parsed according to Excel's operator grammar
 
@@ -279,5 +280,55 @@ example : toksM exTree2 =
     [.operand .num "1", .opr "-", .operand .num "2", .opr "-", .lp, .operand .num "3", .opr "-", .operand .num "4", .rp,
      .opr "^", .opr "-", .operand .range "A1", .opr "%", .opr "*", .fn "SUM", .operand .num "2", .sep,
      .operand .num "5", .opr "&", .operand .str "x", .sep, .fn "F", .rp, .rp] := by decide
+
+/-! ### … and on the formula text (character level, unbounded) -/
+
+open XL.LexText in
+/-- **from tokens to text**: whenever the tokens of a delimited compact spelling (`SafeT`: every token is
+followed by a character that ends it — an operand by an operator symbol, `%`, `)` or `,`; an operator by the
+start of an operand; `+`/`-` not by another sign; `%` not by `%`) parse to a tree, the formula text made of
+their characters parses to the same tree: the ten filters of the tokeniser loop, in their order, cut the text
+into exactly these tokens -/
+theorem tokens_to_text (ss : List TS) (hs : SafeT ss []) (hne : ss ≠ []) (t : Ast)
+    (h : parseToks (ss.map TS.tok) = .ok t) : parseString ('=' :: textOf ss) = .ok t := parse_text ss hs hne t h
+
+open XL.LexText in
+/-- **the compact text of every well-formed tree is read back as that tree** — trees of any size and depth over
+unsigned integers, cell names, string literals without embedded quotes, the twelve binary operators, signs, `%`
+and function calls; the text has no blanks and parentheses only where precedence and left-to-right grouping
+need them, around `x%` under `%`, and around a signed right operand of `+`/`-` -/
+theorem compact_text_parses (ct : CT) (h : CT.WF ct) : parseString ct.text = .ok ct.toAst :=
+  LexText.compact_text_parses ct h
+
+open XL.LexText in
+/-- non-vacuity: `=1-2-(3-4)^-A1%*SUM(2,5&"x y",-(+BC20),(7%)%,1+(-2))` is the compact text of a well-formed tree -/
+def exCT : CT := .bin "-" (.bin "-" (.num ['1']) (.num ['2']))
+  (.bin "*" (.bin "^" (.bin "-" (.num ['3']) (.num ['4'])) (.pct (.neg true (.cell ['A'] ['1']))))
+    (.call ['S', 'U', 'M'] [.num ['2'], .bin "&" (.num ['5']) (.str ['x', ' ', 'y']), .neg true (.neg false (.cell ['B', 'C'] ['2', '0'])),
+      .pct (.pct (.num ['7'])), .bin "+" (.num ['1']) (.neg true (.num ['2']))]))
+
+open XL.LexText in
+example : exCT.text = "=1-2-(3-4)^-A1%*SUM(2,5&\"x y\",-(+BC20),(7%)%,1+(-2))".toList := by decide
+
+open XL.LexText in
+theorem exCT_wf : CT.WF exCT := by
+  have n : ∀ c, c ∈ digitsL → CT.WF (.num [c]) := fun c hc => CT.WF.num [c] (by simp) (by intro x hx; simp at hx; rw [hx]; exact hc)
+  have cellA1 : CT.WF (.cell ['A'] ['1']) := CT.WF.cell _ _ ⟨by decide, by decide, by decide, by decide, by decide⟩
+  have cellBC : CT.WF (.cell ['B', 'C'] ['2', '0']) := CT.WF.cell _ _ ⟨by decide, by decide, by decide, by decide, by decide⟩
+  refine CT.WF.bin _ _ _ (by decide) (CT.WF.bin _ _ _ (by decide) (n _ (by decide)) (n _ (by decide))) ?_
+  refine CT.WF.bin _ _ _ (by decide) (CT.WF.bin _ _ _ (by decide) (CT.WF.bin _ _ _ (by decide) (n _ (by decide)) (n _ (by decide)))
+    (CT.WF.pct _ (CT.WF.neg _ _ cellA1))) ?_
+  refine CT.WF.call _ _ ⟨'S', ['U', 'M'], rfl, by decide⟩ (by decide) ?_
+  intro a ha
+  simp only [List.mem_cons, List.not_mem_nil, or_false] at ha
+  rcases ha with rfl | rfl | rfl | rfl | rfl
+  · exact n _ (by decide)
+  · exact CT.WF.bin _ _ _ (by decide) (n _ (by decide)) (CT.WF.str _ (by decide))
+  · exact CT.WF.neg _ _ (CT.WF.neg _ _ cellBC)
+  · exact CT.WF.pct _ (CT.WF.pct _ (n _ (by decide)))
+  · exact CT.WF.bin _ _ _ (by decide) (n _ (by decide)) (CT.WF.neg _ _ (n _ (by decide)))
+
+open XL.LexText in
+example : parseString exCT.text = .ok exCT.toAst := compact_text_parses exCT exCT_wf
 
 end XL.C01
